@@ -615,8 +615,8 @@ def pure_expr(e):
             if isinstance(n.func, ast.Attribute) and n.func.attr in ("not_opened",):
                 continue
             return False
-        if isinstance(n, (ast.ListComp, ast.GeneratorExp, ast.Lambda, ast.Yield, ast.Await, ast.NamedExpr, ast.List, ast.Dict, ast.Set)):
-            return False
+        if isinstance(n, (ast.GeneratorExp, ast.Lambda, ast.Yield, ast.Await, ast.NamedExpr, ast.List, ast.Dict, ast.Set)):
+            return False        # (a list comprehension of pure parts is pure and, substituted once, builds an equal list)
     return True
 
 
@@ -1249,6 +1249,47 @@ def eliminate_result_copies(fn):
     return k
 
 
+def forward_unpack_targets(fn, known):
+    """`a, b = E` ... `X = b` where the new local b is used nowhere else and nothing between the two statements touches X or has
+    effects: the value is unpacked into X directly (`a, X = E`)."""
+    k = 0
+    for blk in _blocks(fn):
+        i = 0
+        while i < len(blk):
+            s = blk[i]
+            if isinstance(s, ast.Assign) and len(s.targets) == 1 and isinstance(s.targets[0], ast.Tuple) and \
+                    not isinstance(s.value, (ast.Tuple, ast.List)):
+                for j, el in enumerate(s.targets[0].elts):
+                    if not (isinstance(el, ast.Name) and el.id not in known and not el.id.startswith("__")):
+                        continue
+                    occ = [n for n in ast.walk(fn) if isinstance(n, ast.Name) and n.id == el.id]
+                    if len(occ) != 2:
+                        continue
+                    # the single read must be `X = b` later in this block
+                    for m in range(i + 1, len(blk)):
+                        t = blk[m]
+                        if isinstance(t, ast.Assign) and len(t.targets) == 1 and isinstance(t.value, ast.Name) and t.value.id == el.id and \
+                                isinstance(t.targets[0], (ast.Attribute, ast.Name)):
+                            X = t.targets[0]
+                            xs = src(X)
+                            between = blk[i + 1:m]
+                            if any((writes_of(u) & {"<state>", xs}) or xs in reads(u) or any(src(n2) == xs for n2 in ast.walk(u) if isinstance(n2, (ast.Attribute, ast.Name)))
+                                   for u in between):
+                                break
+                            s.targets[0].elts[j] = copy.deepcopy(X)
+                            for n2 in ast.walk(s.targets[0].elts[j]):
+                                if hasattr(n2, "ctx") and n2 is s.targets[0].elts[j]:
+                                    n2.ctx = ast.Store()
+                            ast.fix_missing_locations(s)
+                            del blk[m]
+                            k += 1
+                            break
+                        if any(isinstance(n2, ast.Name) and n2.id == el.id for n2 in ast.walk(t)):
+                            break
+            i += 1
+    return k
+
+
 def rename_result_temps(fn):
     """`__tmp = E` ... `x = __tmp` (single definition, single use, x untouched in between, same block) -> `x = E` at the definition."""
     k = 0
@@ -1280,10 +1321,11 @@ def expand_return_ifexp(fn):
         i = 0
         while i < len(b):
             s = b[i]
-            if isinstance(s, ast.Assign) and len(s.targets) == 1 and isinstance(s.targets[0], ast.Name) and isinstance(s.value, ast.IfExp):
+            if isinstance(s, ast.Assign) and len(s.targets) == 1 and isinstance(s.value, ast.IfExp) and \
+                    (isinstance(s.targets[0], ast.Name) or (isinstance(s.targets[0], ast.Attribute) and isinstance(s.targets[0].value, ast.Name))):
                 v = s.value
-                new = ast.If(test=v.test, body=[ast.Assign(targets=[ast.Name(id=s.targets[0].id, ctx=ast.Store())], value=v.body)],
-                             orelse=[ast.Assign(targets=[ast.Name(id=s.targets[0].id, ctx=ast.Store())], value=v.orelse)])
+                new = ast.If(test=v.test, body=[ast.Assign(targets=[copy.deepcopy(s.targets[0])], value=v.body)],
+                             orelse=[ast.Assign(targets=[copy.deepcopy(s.targets[0])], value=v.orelse)])
                 ast.copy_location(new, s)
                 ast.fix_missing_locations(new)
                 b[i] = new
@@ -1298,6 +1340,50 @@ def expand_return_ifexp(fn):
                 k += 1
                 continue        # re-examine: nested conditional expressions
             i += 1
+    return k
+
+
+def expand_dict_splats(fn):
+    """f(**d) where d is a local bound exactly once to a dict display with constant string keys, never mutated or passed
+    elsewhere, and whose value expressions are not affected between the display and the call: the keywords are written out."""
+    k = 0
+    for b in _blocks(fn):
+        for i, s in enumerate(b):
+            if not (isinstance(s, ast.Assign) and len(s.targets) == 1 and isinstance(s.targets[0], ast.Name) and isinstance(s.value, ast.Dict)):
+                continue
+            d = s.targets[0].id
+            dv = s.value
+            if not dv.keys or any(not (isinstance(kk, ast.Constant) and isinstance(kk.value, str) and kk.value.isidentifier()) for kk in dv.keys):
+                continue
+            occ = [n for n in ast.walk(fn) if isinstance(n, ast.Name) and n.id == d]
+            stores = [n for n in occ if isinstance(n.ctx, (ast.Store, ast.Del))]
+            if len(stores) != 1:
+                continue
+            par = {}
+            for a in ast.walk(fn):
+                for c2 in ast.iter_child_nodes(a):
+                    par[id(c2)] = a
+            loads = [n for n in occ if isinstance(n.ctx, ast.Load)]
+            if not loads or not all(isinstance(par.get(id(n)), ast.keyword) and par[id(n)].arg is None for n in loads):
+                continue        # used in some other way (subscript store, passed along, iterated)
+            if not all(pure_expr(v) for v in dv.values):
+                continue
+            deps = set()
+            for v in dv.values:
+                deps |= reads(v)
+            later = b[i + 1:]
+            inside = [n for t in later for n in ast.walk(t) if isinstance(n, ast.Name) and n.id == d and isinstance(n.ctx, ast.Load)]
+            if len(inside) != len(loads) or not _uses_safe(later, d, deps):
+                continue
+            for n in loads:
+                kwn = par[id(n)]
+                call = par[id(kwn)]
+                idx = call.keywords.index(kwn)
+                call.keywords[idx:idx + 1] = [ast.keyword(arg=kk.value, value=copy.deepcopy(v)) for kk, v in zip(dv.keys, dv.values)]
+                ast.fix_missing_locations(call)
+            b.remove(s)
+            k += 1
+            return k + expand_dict_splats(fn)
     return k
 
 
@@ -1545,6 +1631,12 @@ class _DropBool(ast.NodeTransformer):
 def normalize_tree(file, tree, vocab):
     """Normalise one module in place; returns a log of what was done."""
     log = []
+    # conditional expressions at statement level are opened first, so that helper calls inside them become ordinary statements
+    pre = 0
+    for f0 in [n for n in ast.walk(tree) if isinstance(n, ast.FunctionDef)]:
+        pre += expand_return_ifexp(f0)
+    if pre:
+        log.append("%d conditional expression(s) at statement level opened into if/else" % pre)
     inliner = Inliner(file, tree, vocab)
     inl = inliner.run()
     if inl:
@@ -1580,7 +1672,7 @@ def normalize_tree(file, tree, vocab):
             STABLE[0] = stable_attrs(node if isinstance(node, ast.ClassDef) else None, f)
             CONTAINER_WRITES[0] = container_writes(node) if isinstance(node, ast.ClassDef) else {}
             t0 = split_tuple_assigns(f)
-            t0 += expand_return_ifexp(f) + unroll_literal_loops(f)
+            t0 += expand_return_ifexp(f) + unroll_literal_loops(f) + expand_dict_splats(f)
             t0 += fold_none_tests(f, cname)
             t0 += scalarise_tuple_temps(f)
             t0 += coalesce_copies(f)
@@ -1596,6 +1688,9 @@ def normalize_tree(file, tree, vocab):
             if g:
                 log.append("%s.%s: %d guard clause(s) -> if/else" % (cname, f.name, g))
             if known is not None:
+                fu = forward_unpack_targets(f, known | set(a.arg for a in f.args.args))
+                if fu:
+                    log.append("%s.%s: %d unpacked value(s) stored directly" % (cname, f.name, fu))
                 k = substitute_new_temps(f, known | set(a.arg for a in f.args.args))
                 if k:
                     log.append("%s.%s: %d new temporar%s substituted" % (cname, f.name, k, "y" if k == 1 else "ies"))
